@@ -105,7 +105,7 @@ func (sc *RevScenario) cancelInstant(obs *RevObs, co *CallObs) (time.Time, bool)
 	case CancelBefore:
 		tc = co.TStart
 	case CancelAt, CancelDeadline:
-		tc = obs.T0.Add(sc.CancelAfter + time.Millisecond/2)
+		tc = obs.T0.Add(sc.CancelAfter + cancelOffset)
 	case CancelOnXchg:
 		for _, x := range obs.Net.All() {
 			if x.Rec.CancelledHere && (tc.IsZero() || x.Rec.TClosed.Before(tc)) {
@@ -205,7 +205,7 @@ func runC09Timestamp(t *Tape, st *Stats) *RunResult {
 		case 1:
 			tc = obs.TStart
 		case 2:
-			tc = obs.TStart.Add(time.Duration(sc.CancelMs)*time.Millisecond + 500*time.Microsecond)
+			tc = obs.TStart.Add(time.Duration(sc.CancelMs)*time.Millisecond + cancelOffset)
 		}
 		if !tc.IsZero() && !tc.After(obs.TReturn) && obs.X.Rec.Begun && obs.TReturn.After(tc) && sc.Scheme == 0 && !sc.NoTimestamp {
 			rc.fail("C09.R3", "sign/blocked_after_cancel", fmt.Sprintf("%s: the context was cancelled at %s but Sign only returned at %s", desc, rel(tc), rel(obs.TReturn)))
